@@ -1,5 +1,5 @@
 """C18 — no transaction input can crash or halt the node."""
-import glob, json, os, random
+import base64, glob, json, os, random
 import common, c18run
 from common import Broken, sh
 
@@ -10,6 +10,31 @@ ASSUMPTIONS = [
     "memory exhaustion and time are outside; inputs run in worker processes so that os.Exit and application shutdown are observed from outside; after every input a probe transaction must still be accepted, executed and committed",
     "ETH lock/redeem/ERC20/report kinds run on a second prepared chain (Ethereum chain driver, witnesses, a token: harness/c18eth.go) with the same field/payload/envelope hostility plus hostile EMBEDDED Ethereum transactions (every selector x 0..200 argument bytes, bare / framed / RLP signed / unsigned / to contract, token, elsewhere, creation); OLVM transactions get hostile values, chain ids, gas, nonces, memos, code and signatures of every length",
 ]
+
+
+def _payload(inp):
+    """(transaction type, decoded payload) of an input, or (None, None) when the bytes are not a JSON envelope."""
+    try:
+        env = json.loads(bytes.fromhex(inp["tx"]))
+        return env.get("type"), json.loads(base64.b64decode(env.get("data") or ""))
+    except Exception:
+        return None, None
+
+
+def _bid_unknown_asset_type(inp):
+    # BID_CREATE (0x901) that opens a conversation (no bidConvId) with an assetType outside BidAssetMap {0x21, 0x22}
+    typ, p = _payload(inp)
+    if typ != 0x901 or not isinstance(p, dict) or p.get("bidConvId"):
+        return False
+    at = p.get("assetType")
+    return at is None or (isinstance(at, int) and not isinstance(at, bool) and at not in (0x21, 0x22))
+
+
+# known findings whose inputs the generator produces itself: trigger id -> predicate over the input.
+# A crash of a generated input is attributed to the finding only while its status is "known".
+TRIGGERS = {
+    "C18.bid_unknown_asset_type": _bid_unknown_asset_type,
+}
 
 
 def corpus_inputs():
@@ -67,6 +92,8 @@ def run(ctx):
         inp = byid[i]
         f = cfind.get(i)
         if f is not None and f["status"] == "known" and ctx.known_finding(f["trigger"], ""):
+            continue
+        if any(pred(inp) and ctx.known_finding(trig, "") for trig, pred in sorted(TRIGGERS.items())):
             continue
         n += 1
         if n <= 5:
